@@ -20,7 +20,7 @@ PROP = dict(
              "after it has written - v2.vault (a vault on a fixed-price extended pair whose debt asset has no oracle price: collateral sent, "
              "locked vault stored, then the dutch auction cannot start), v2.borrow (another borrower has taken the pool's collateral-asset "
              "liquidity: borrow marked liquidated, then the collateral transfer fails; a smaller borrow of the same sweep succeeds), "
-             "v2.surplusdebt (English auctions off: lot taken from the collector, then the auction is refused), v2.auction (English surplus "
+             "v2.surplusdebt (English auctions off: lot taken from the collector, then the auction is refused; a second mapping of the same app follows in the sweep and must still be reached), v2.auction (English surplus "
              "auction with a bid past its end, app without token-mint record: lot and bid moved, then the burn fails), v2.limitbid (two limit "
              "bids at one premium of an under-collateralised auction with a tiny app reserve: the first (a quarter of the debt) is filled, the second (twice the debt) - placed on the auction as the first left it (fixes/C10-F6) - runs out of collateral and fails on the reserve), rewards.hook (two locker reward "
              "programmes, kill switch on the later one's app: first programme paid, then the step fails), esm.hook (vault app under shutdown "
